@@ -141,7 +141,7 @@ func UniqueKeyFromLabelsSelector(ls *v1.LabelSelector) (string, error) {
 		if newStr != "" {
 			currentStr = newStr
 		}
-		reqStr += currentStr
+		reqStr += currentStr + "," // separated, so different lists of requirements never concatenate to the same string
 	}
 	return hex.EncodeToString(sha1.New().Sum([]byte(reqStr))), nil //nolint:gosec // Non-crypto use
 }
